@@ -111,3 +111,11 @@ pub assume_specification<'a>[ str::trim_end ](s: &'a str) -> (r: &'a str)
 pub uninterp spec fn verif_trim_spec(s: Seq<char>) -> Seq<char>;
 pub assume_specification<'a>[ str::trim ](s: &'a str) -> (r: &'a str)
     ensures r@ == verif_trim_spec(s@);
+//@ondemand std::ffi::os_str::OsStr
+#[verifier::external_type_specification]
+#[verifier::external_body]
+pub struct VerifOnDemandExOsStr(std::ffi::OsStr);
+//@ondemand std::path::Path
+#[verifier::external_type_specification]
+#[verifier::external_body]
+pub struct VerifOnDemandExPath(std::path::Path);
